@@ -332,8 +332,8 @@ fn real_main() {
     });
     total.merge(rep);
     // ---- substrings: E2
-    let nmax = args.num("nmax", if thorough { 5 } else { 4 }) as usize;
-    let hmax = args.num("hmax", if thorough { 13 } else { 11 }) as usize;
+    let nmax = args.num("nmax", if thorough { 6 } else { 4 }) as usize;
+    let hmax = args.num("hmax", if thorough { 15 } else { 11 }) as usize;
     let needles = spaces::AllStrings { letters: b"ab".to_vec(), minlen: 0, maxlen: nmax }.all();
     let hays = spaces::AllStrings { letters: b"ab".to_vec(), minlen: 0, maxlen: hmax };
     let ht = hays.total();
@@ -392,12 +392,44 @@ fn real_main() {
         digest.fetch_xor(acc.digest, std::sync::atomic::Ordering::Relaxed);
     });
     total.merge(rep);
+    // ---- substrings: the (needle length x haystack length) grid, one
+    // occurrence at every position (backends differ in their length
+    // thresholds, so every pair of lengths is a potential disagreement)
+    let gn = args.num("gridn", if thorough { 140 } else { 72 }) as usize;
+    let gh = args.num("gridh", if thorough { 600 } else { 272 }) as usize;
+    let glens: Vec<usize> = (0..=gn).collect();
+    let rep = par::run_items(&glens, |_, &m, r| {
+        let mut acc = Acc { digest: 0 };
+        let mut h: Vec<u8> = vec![];
+        for kind in 0..2u64 {
+            if m == 0 && kind == 1 {
+                continue;
+            }
+            let needle: Vec<u8> = if kind == 0 { (0..m).map(|i| 33 + (i % 94) as u8).collect() } else { b"ab".iter().copied().cycle().take(m).collect() };
+            for len in 0..=gh {
+                h.clear();
+                h.resize(len, b'.');
+                sub_case(r, &mut acc, (7 << 60) | (kind << 56) | ((m as u64) << 40) | ((len as u64) << 20) | 0xfffff, &needle, &h);
+                if m == 0 || len < m {
+                    continue;
+                }
+                for p in 0..=len - m {
+                    h.clear();
+                    h.resize(len, b'.');
+                    h[p..p + m].copy_from_slice(&needle);
+                    sub_case(r, &mut acc, (7 << 60) | (kind << 56) | ((m as u64) << 40) | ((len as u64) << 20) | p as u64, &needle, &h);
+                }
+            }
+        }
+        digest.fetch_xor(acc.digest, std::sync::atomic::Ordering::Relaxed);
+    });
+    total.merge(rep);
     let d = digest.load(std::sync::atomic::Ordering::Relaxed);
     total.sample(0, || json!({"transcript": "memchr/2/3, memrchr/2/3, count, iterators (fwd, rev, double-ended); memmem find/rfind, Finder, FinderRev, no-prefilter finder, find_iter/rfind_iter sequences", "availability": have, "digest": format!("{:016x}", d)}));
     let extra = json!({
         "engine": "tx", "tier": if thorough { "thorough" } else { "quick" },
         "availability": have, "digest": format!("{:016x}", d),
-        "bounds": {"bytes_full_len": lfull, "bytes_sparse_len": lmax, "E2": {"needle": nmax, "haystack": hmax}, "LN_needles": lnn.len()},
+        "bounds": {"bytes_full_len": lfull, "bytes_sparse_len": lmax, "E2": {"needle": nmax, "haystack": hmax}, "LN_needles": lnn.len(), "grid": {"needle_len": [0, gn], "haystack_len": [0, gh], "occurrence": "none / one at every position"}},
         "nontrivial_rule": "byte cases: haystack of at least 16 bytes; substring cases: first occurrence beyond offset 0 or no occurrence in a haystack at least as long as the needle",
         "exhaustive": true,
         "wall_s": t0.elapsed().as_secs_f64(),
